@@ -124,7 +124,9 @@ MkProbeG(d, s) ==
       gv0 == GvOf(decl, N)
       \* perturb the pert-th *existing* grid variable: T_local entries first, then t0_local entries
       nTl == IF HasTl(G) THEN (IF G.kind = "free" THEN N ELSE N - 1) ELSE 0
-      gv == IF s.pert = 0 THEN gv0
+      \* neg: the first two interval variables of a FreeGrid are moved to -1/4 and (sum preserved) up: only the bound 0 <= T_local tells
+      gv == IF s.neg THEN [gv0 EXCEPT !.Tl[1] = Q(-1, 4), !.Tl[2] = Add(@, Add(gv0.Tl[1], Q(1, 4)))]
+            ELSE IF s.pert = 0 THEN gv0
             ELSE IF s.pert <= nTl
                  THEN [gv0 EXCEPT !.Tl[IF G.kind = "free" THEN s.pert ELSE s.pert + 1] = Add(@, Q(1, 2))]
                  ELSE [gv0 EXCEPT !.t0l[s.pert - nTl + 1] = Add(@, Q(1, 2))]
@@ -400,7 +402,8 @@ Space ==
 SpaceG ==
   {s \in [meth : {"MS", "SS", "DC"}, N : 1..(IF Thorough THEN 6 ELSE 3), M : 1..(IF Thorough THEN 4 ELSE 2), grid : {"uni", "geo", "geoL", "fun", "dens", "free"},
            lt0 : BOOLEAN, lT : BOOLEAN, bnd : {"none", "minlo", "minhi", "maxhi", "maxlo"},
-           hz : {"num", "fT", "fb"}, pert : 0..12, seed : {Seed}, cons : {<<>>}, obj : {<<>>}] :
+           hz : {"num", "fT", "fb"}, pert : 0..12, neg : BOOLEAN, seed : {Seed}, cons : {<<>>}, obj : {<<>>}] :
+       /\ (s.neg => s.grid = "free" /\ s.N >= 2 /\ s.pert = 0 /\ ~s.lt0 /\ s.bnd \in {"none", "maxhi"})
        /\ (s.grid \in {"fun", "dens"} => ~s.lt0 /\ ~s.lT)      \* FunctionGrid / DensityGrid cannot be localized
        /\ (s.grid = "dens" => s.meth = "MS" /\ s.N >= 2)
        /\ (s.grid = "free" => ~s.lT)                \* FreeGrid has its own interval variables by construction; localize_t0 is an option
